@@ -157,13 +157,132 @@ macro_rules! c04_len {
 
 c04_len!(c04_verify_len_000, 0);
 c04_len!(c04_verify_len_001, 1);
+c04_len!(c04_verify_len_002, 2);
+c04_len!(c04_verify_len_003, 3);
+c04_len!(c04_verify_len_004, 4);
+c04_len!(c04_verify_len_005, 5);
+c04_len!(c04_verify_len_006, 6);
+c04_len!(c04_verify_len_007, 7);
+c04_len!(c04_verify_len_008, 8);
+c04_len!(c04_verify_len_009, 9);
+c04_len!(c04_verify_len_010, 10);
+c04_len!(c04_verify_len_011, 11);
+c04_len!(c04_verify_len_012, 12);
+c04_len!(c04_verify_len_013, 13);
+c04_len!(c04_verify_len_014, 14);
+c04_len!(c04_verify_len_015, 15);
+c04_len!(c04_verify_len_016, 16);
+c04_len!(c04_verify_len_017, 17);
+c04_len!(c04_verify_len_018, 18);
+c04_len!(c04_verify_len_019, 19);
+c04_len!(c04_verify_len_020, 20);
+c04_len!(c04_verify_len_021, 21);
+c04_len!(c04_verify_len_022, 22);
+c04_len!(c04_verify_len_023, 23);
+c04_len!(c04_verify_len_024, 24);
+c04_len!(c04_verify_len_025, 25);
+c04_len!(c04_verify_len_026, 26);
+c04_len!(c04_verify_len_027, 27);
+c04_len!(c04_verify_len_028, 28);
+c04_len!(c04_verify_len_029, 29);
+c04_len!(c04_verify_len_030, 30);
 c04_len!(c04_verify_len_031, 31);
 c04_len!(c04_verify_len_032, 32);
 c04_len!(c04_verify_len_033, 33);
+c04_len!(c04_verify_len_034, 34);
+c04_len!(c04_verify_len_035, 35);
+c04_len!(c04_verify_len_036, 36);
+c04_len!(c04_verify_len_037, 37);
+c04_len!(c04_verify_len_038, 38);
+c04_len!(c04_verify_len_039, 39);
+c04_len!(c04_verify_len_040, 40);
+c04_len!(c04_verify_len_041, 41);
+c04_len!(c04_verify_len_042, 42);
+c04_len!(c04_verify_len_043, 43);
+c04_len!(c04_verify_len_044, 44);
+c04_len!(c04_verify_len_045, 45);
+c04_len!(c04_verify_len_046, 46);
+c04_len!(c04_verify_len_047, 47);
+c04_len!(c04_verify_len_048, 48);
+c04_len!(c04_verify_len_049, 49);
+c04_len!(c04_verify_len_050, 50);
+c04_len!(c04_verify_len_051, 51);
+c04_len!(c04_verify_len_052, 52);
+c04_len!(c04_verify_len_053, 53);
+c04_len!(c04_verify_len_054, 54);
+c04_len!(c04_verify_len_055, 55);
+c04_len!(c04_verify_len_056, 56);
+c04_len!(c04_verify_len_057, 57);
+c04_len!(c04_verify_len_058, 58);
+c04_len!(c04_verify_len_059, 59);
+c04_len!(c04_verify_len_060, 60);
+c04_len!(c04_verify_len_061, 61);
+c04_len!(c04_verify_len_062, 62);
 c04_len!(c04_verify_len_063, 63);
 c04_len!(c04_verify_len_064, 64);
 c04_len!(c04_verify_len_065, 65);
 c04_len!(c04_verify_len_066, 66);
+c04_len!(c04_verify_len_067, 67);
+c04_len!(c04_verify_len_068, 68);
+c04_len!(c04_verify_len_069, 69);
+c04_len!(c04_verify_len_070, 70);
+c04_len!(c04_verify_len_071, 71);
+c04_len!(c04_verify_len_072, 72);
+c04_len!(c04_verify_len_073, 73);
+c04_len!(c04_verify_len_074, 74);
+c04_len!(c04_verify_len_075, 75);
+c04_len!(c04_verify_len_076, 76);
+c04_len!(c04_verify_len_077, 77);
+c04_len!(c04_verify_len_078, 78);
+c04_len!(c04_verify_len_079, 79);
+c04_len!(c04_verify_len_080, 80);
+c04_len!(c04_verify_len_081, 81);
+c04_len!(c04_verify_len_082, 82);
+c04_len!(c04_verify_len_083, 83);
+c04_len!(c04_verify_len_084, 84);
+c04_len!(c04_verify_len_085, 85);
+c04_len!(c04_verify_len_086, 86);
+c04_len!(c04_verify_len_087, 87);
+c04_len!(c04_verify_len_088, 88);
+c04_len!(c04_verify_len_089, 89);
+c04_len!(c04_verify_len_090, 90);
+c04_len!(c04_verify_len_091, 91);
+c04_len!(c04_verify_len_092, 92);
+c04_len!(c04_verify_len_093, 93);
+c04_len!(c04_verify_len_094, 94);
+c04_len!(c04_verify_len_095, 95);
 c04_len!(c04_verify_len_096, 96);
+c04_len!(c04_verify_len_097, 97);
+c04_len!(c04_verify_len_098, 98);
+c04_len!(c04_verify_len_099, 99);
+c04_len!(c04_verify_len_100, 100);
+c04_len!(c04_verify_len_101, 101);
+c04_len!(c04_verify_len_102, 102);
+c04_len!(c04_verify_len_103, 103);
+c04_len!(c04_verify_len_104, 104);
+c04_len!(c04_verify_len_105, 105);
+c04_len!(c04_verify_len_106, 106);
+c04_len!(c04_verify_len_107, 107);
+c04_len!(c04_verify_len_108, 108);
+c04_len!(c04_verify_len_109, 109);
+c04_len!(c04_verify_len_110, 110);
+c04_len!(c04_verify_len_111, 111);
+c04_len!(c04_verify_len_112, 112);
+c04_len!(c04_verify_len_113, 113);
+c04_len!(c04_verify_len_114, 114);
+c04_len!(c04_verify_len_115, 115);
+c04_len!(c04_verify_len_116, 116);
+c04_len!(c04_verify_len_117, 117);
+c04_len!(c04_verify_len_118, 118);
+c04_len!(c04_verify_len_119, 119);
+c04_len!(c04_verify_len_120, 120);
+c04_len!(c04_verify_len_121, 121);
+c04_len!(c04_verify_len_122, 122);
+c04_len!(c04_verify_len_123, 123);
+c04_len!(c04_verify_len_124, 124);
+c04_len!(c04_verify_len_125, 125);
+c04_len!(c04_verify_len_126, 126);
+c04_len!(c04_verify_len_127, 127);
 c04_len!(c04_verify_len_128, 128);
+c04_len!(c04_verify_len_129, 129);
 c04_len!(c04_verify_len_130, 130);
